@@ -51,3 +51,17 @@ package fasthttp
 //@   loop 1:
 //@     invariant[nothing-pending] pending == 0
 //@   ensures[all-read-bytes-written] err == nil ==> pending == 0
+
+// chunkedBodyWriter.Write (WriteTo fast path): an empty Write writes nothing -- an empty chunk is the end-of-stream
+// marker -- and a non-empty one is framed as exactly one chunk of those bytes.
+//@ func chunkedBodyWriter.Write results n err
+//@   property C34 C03
+//@   mode skeleton
+//@   ghost chunks int = 0
+//@   on call writeChunk(_, b) -> e:
+//@     nohavoc
+//@     requires[never-an-empty-chunk] len(b) > 0 && sameSlice(b, p)
+//@     effect chunks = chunks + 1
+//@   end
+//@   ensures[one-chunk-per-non-empty-write] chunks == (len(p) > 0 ? 1 : 0)
+//@   ensures[all-or-error] err == nil ==> n == len(p)
